@@ -147,39 +147,64 @@ def _correction(prog: Program, res: Result):
     if ps != ["g_function", "rb", "rb_star"]:
         raise AnalysisError(f"{q}: parameter list changed: {ps}")
 
-    class H(Hooks):
-        def on_call(self, node, fname, args, kwargs, st, eng):
-            if fname and fname.endswith(".append") and len(args) == 1:
-                st.emit("APPEND", (fname[:-7], args[0]), node)
-                return Const(None)
-            return None
-
-    eng = Engine(prog, fi, H(), loop_bound=1, zero_trip=False)
+    # the per-element map, in whichever of three shapes it is written:
+    #   for g in P: L.append(E); return L   |   for i, g in enumerate(P): P[i] = E; return P   |   return [E for g in P]
+    P = ps[0]
+    fn = fi.node
+    eng = Engine(prog, fi, Hooks(), loop_bound=1, zero_trip=False)
     st = State()
-    for p in ps:
-        st.env[p] = Rat.atom(p)
-    fin = [f for f in eng.run_function(st) if f.exit and f.exit[0] == "return"]
-    if len(fin) != 1:
-        raise AnalysisError(f"{q}: not a single loop path")
-    f = fin[0]
-    apps = [e for e in f.events if e.kind == "APPEND"]
-    loops = [n for n in ast.walk(fi.node) if isinstance(n, (ast.For, ast.comprehension))]
-    lv = None
-    for n in loops:
-        if ast.unparse(n.iter) == "g_function" and isinstance(n.target, ast.Name):
-            lv = n.target.id
-    if lv is None or len(apps) != 1 or not isinstance(apps[0].data[1], Rat):
+    for p_ in ps:
+        st.env[p_] = Rat.atom(p_)
+    for s_ in fn.body:  # straight-line locals before the loop (e.g. a hoisted shift)
+        if isinstance(s_, ast.Assign) and len(s_.targets) == 1 and isinstance(s_.targets[0], ast.Name) and not isinstance(s_.value, (ast.List, ast.ListComp)):
+            eng._s_Assign(s_, st)
+    elem_expr = elem_var = node_ = None
+    returned_ok = False
+    rets = [r for r in ast.walk(fn) if isinstance(r, ast.Return) and r.value is not None]
+    if len(rets) != 1:
+        raise AnalysisError(f"{q}: expected one return")
+    rv = rets[0].value
+    comp = rv if isinstance(rv, ast.ListComp) else None
+    if comp is None and isinstance(rv, ast.Name):
+        d_ = [s_ for s_ in fn.body if isinstance(s_, ast.Assign) and len(s_.targets) == 1 and isinstance(s_.targets[0], ast.Name) and s_.targets[0].id == rv.id]
+        if len(d_) == 1 and isinstance(d_[0].value, ast.ListComp):
+            comp = d_[0].value
+    if comp is not None:
+        g_ = comp.generators
+        if len(g_) == 1 and not g_[0].ifs and ast.unparse(g_[0].iter) == P and isinstance(g_[0].target, ast.Name):
+            elem_expr, elem_var, node_, returned_ok = comp.elt, g_[0].target.id, comp, True
+    else:
+        for lp in [n_ for n_ in fn.body if isinstance(n_, ast.For)]:
+            it = lp.iter
+            if ast.unparse(it) == P and isinstance(lp.target, ast.Name):
+                # L.append(E)
+                apps = [c for c in ast.walk(lp) if isinstance(c, ast.Call) and isinstance(c.func, ast.Attribute) and c.func.attr == "append" and len(c.args) == 1 and isinstance(c.func.value, ast.Name)]
+                if len(apps) == 1 and len(lp.body) == 1:
+                    elem_expr, elem_var, node_ = apps[0].args[0], lp.target.id, apps[0]
+                    returned_ok = isinstance(rv, ast.Name) and rv.id == apps[0].func.value.id
+            elif isinstance(it, ast.Call) and attr_chain(it.func) == "enumerate" and len(it.args) == 1 and ast.unparse(it.args[0]) == P \
+                    and isinstance(lp.target, ast.Tuple) and len(lp.target.elts) == 2 and all(isinstance(e_, ast.Name) for e_ in lp.target.elts):
+                iv_, gv_ = lp.target.elts[0].id, lp.target.elts[1].id
+                sts = [s_ for s_ in lp.body if isinstance(s_, ast.Assign) and len(s_.targets) == 1 and isinstance(s_.targets[0], ast.Subscript)
+                       and isinstance(s_.targets[0].value, ast.Name) and ast.unparse(s_.targets[0].slice) == iv_]
+                if len(sts) == 1 and len(lp.body) == 1:
+                    elem_expr, elem_var, node_ = sts[0].value, gv_, sts[0]
+                    returned_ok = isinstance(rv, ast.Name) and rv.id == sts[0].targets[0].value.id
+    if elem_expr is None:
         raise AnalysisError(f"{q}: per-value correction not understood")
-    got = apps[0].data[1]
-    want = Rat.atom(lv) - sym.log(Rat.atom("rb_star") / Rat.atom("rb"))
+    s2 = st.fork()
+    s2.env[elem_var] = Rat.atom("g")
+    got = eng.eval(elem_expr, s2)
+    if not isinstance(got, Rat):
+        raise AnalysisError(f"{q}: per-value correction not understood: {ast.unparse(elem_expr)[:60]}")
+    want = Rat.atom("g") - sym.log(Rat.atom("rb_star") / Rat.atom("rb"))
     ok = got.equals(want)
-    res.ob("R11.2", f"corrected value = g - ln(rb_star / rb) (got {got.key()})", ok, prog.loc(fi, apps[0].node))
+    res.ob("R11.2", f"corrected value = g - ln(rb_star / rb) (got {got.key()})", ok, prog.loc(fi, node_))
     if not ok:
-        res.violation("R11.2", f"correction|{got.key()[:80]}", prog.loc(fi, apps[0].node), q, f"the radius correction is {got.key()[:140]} instead of g - ln(rb_star / rb)")
-    ok = isinstance(f.exit[1], Rat) and f.exit[1] == Rat.atom(apps[0].data[0]) or ast.unparse(f.exit[2].value) == apps[0].data[0]
-    res.ob("R11.2", "one corrected value per input value is returned", bool(ok), prog.loc(fi, f.exit[2]))
-    if not ok:
-        res.violation("R11.2", "correction-return", prog.loc(fi, f.exit[2]), q, "borehole_radius_correction does not return the list of corrected values")
+        res.violation("R11.2", f"correction|{got.key()[:80]}", prog.loc(fi, node_), q, f"the radius correction is {got.key()[:140]} instead of g - ln(rb_star / rb)")
+    res.ob("R11.2", "one corrected value per input value is returned", bool(returned_ok), prog.loc(fi, rets[0]))
+    if not returned_ok:
+        res.violation("R11.2", "correction-return", prog.loc(fi, rets[0]), q, "borehole_radius_correction does not return the list of corrected values")
 
 
 def _sources(prog: Program, res: Result):
